@@ -42,7 +42,7 @@ import (
 )
 
 func init() {
-	fw.Register(&fw.Check{ID: "C36", Level: "exploration", Run: runC36, QuickBudget: 100, ThoroughBudget: 1400})
+	fw.Register(&fw.Check{ID: "C36", Level: "exploration", Run: runC36, QuickBudget: 150, ThoroughBudget: 1400})
 }
 
 // ---------------------------------------------------------------------------
@@ -740,10 +740,10 @@ func (b *i36Base) diffSig(got, want []string, srv map[string]string) string {
 }
 
 func runC36(c *fw.Ctx) {
-	maxCommits := c.Pick(3, 4)
+	maxCommits := c.Pick(2, 4)
 	// pairings 2 and 3 (a git process on one side) run on the DAGs with at most
 	// maxCommitsX commits.
-	maxCommitsX := c.Pick(2, 3)
+	maxCommitsX := c.Pick(1, 3)
 	protosGo := []int{0, 2}
 	protosGit := []int{0, 2}
 	if c.Thorough() {
@@ -752,6 +752,9 @@ func runC36(c *fw.Ctx) {
 	}
 	only := os.Getenv("C36_ONLY") // debugging aid: substring of the DAG name
 	depths := []int{0, 1, 2, 3}
+	if !c.Thorough() {
+		depths = []int{0, 1} // deeper requests need >= 3 commits to differ
+	}
 	c.Bound("max_commits", maxCommits)
 	c.Bound("max_commits_pairings_with_git", maxCommitsX)
 	c.Bound("max_parents", 2)
@@ -780,6 +783,9 @@ func runC36(c *fw.Ctx) {
 			for ts := 0; ts < 2; ts++ {
 				if n == 1 && ts == 1 {
 					continue
+				}
+				if !c.Thorough() && ts == 1 {
+					continue // quick tier: monotone timestamps only
 				}
 				if only != "" && !strings.Contains(i36DagName(d, ts), only) {
 					continue
